@@ -600,3 +600,68 @@ Definition pg_stores_apart (orc : pg_oracle) (tops : list pg_hid) : Prop :=
 
 Definition pg_fam_apart (fam : pg_family) (tops : list pg_hid) : Prop :=
   forall k res so ss, fam k = Some (res, so, ss) -> forall s, In s so \/ In s ss -> ~ In s tops.
+
+(* ------------------------------------------------------------------ several calls on the evolving object *)
+(* an oracle that only returns outcomes (plain handlers) *)
+Definition pg_quiet (orc : pg_oracle) : Prop := forall k n, snd (orc k n) = pg_no_effects.
+
+(* the sub-registry's cause handlers are among its resource handlers *)
+Definition pg_fam_wf (fam : pg_family) : Prop := forall k res so ss, fam k = Some (res, so, ss) -> incl ss so.
+
+(* whatever an invocation writes over a record that says "finished" still says "finished" *)
+Definition pg_keeps_finished (body : list (pg_hid * pg_srec)) (orc : pg_oracle) : Prop :=
+  forall k n s r, In (s, r) (e_stores (snd (orc k n))) ->
+                  pg_rec_finished (pg_find s body) = true -> pg_rec_finished (Some r) = true.
+
+(* the records on the object after the patch was applied (merge): what the next call fetches *)
+Definition pg_apply (body : list (pg_hid * pg_srec)) (p : pg_patch) : list (pg_hid * pg_srec) :=
+  flat_map (fun k => match pg_after body p k with Some r => [(k, r)] | None => [] end)
+           (pg_dedup (map fst p ++ map fst body)).
+
+(* one call: the cause, the selection, the lifecycle, the instant, and the handlers' behaviour (which may read the object) *)
+Record pg_call := mkPgCall {
+  c_reason   : pg_reason;
+  c_selected : list pg_hid;
+  c_lc       : pg_lifecycle;
+  c_now      : Z;
+  c_nd       : bool;
+  c_orc      : list (pg_hid * pg_srec) -> pg_oracle }.
+
+Definition pg_call_result (owned : list pg_hid) (body : list (pg_hid * pg_srec)) (c : pg_call) : pg_result :=
+  pg_pipeline body owned (c_reason c) (c_selected c) (c_lc c) (c_now c) (c_nd c) (c_orc c body).
+
+Fixpoint pg_run_calls (owned : list pg_hid) (body : list (pg_hid * pg_srec)) (calls : list pg_call)
+  : list pg_result * list (pg_hid * pg_srec) :=
+  match calls with
+  | [] => ([], body)
+  | c :: cs =>
+      let r := pg_call_result owned body c in
+      let rest := pg_run_calls owned (pg_apply body (r_patch r)) cs in
+      (r :: fst rest, snd rest)
+  end.
+
+(* every invocation of a call, of every depth *)
+Definition pg_trace (r : pg_result) : list (pg_hid * Z) := r_invoked r ++ r_sub r.
+
+(* a call that neither closes the cycle nor runs the supersession purge *)
+Definition pg_calm (owned : list pg_hid) (body : list (pg_hid * pg_srec)) (c : pg_call) : Prop :=
+  r_done (pg_call_result owned body c) <> Some true /\
+  (pg_handler_reason (c_reason c) = true ->
+   pg_has_extras (pg_prepare body owned (c_reason c) (c_selected c) (c_now c)) = false).
+
+Fixpoint pg_all_calm (owned : list pg_hid) (body : list (pg_hid * pg_srec)) (calls : list pg_call) : Prop :=
+  match calls with
+  | [] => True
+  | c :: cs => pg_calm owned body c /\ pg_all_calm owned (pg_apply body (r_patch (pg_call_result owned body c))) cs
+  end.
+
+(* the handlers that are due: selected, not recorded as finished, recorded delay elapsed *)
+Definition pg_due (body : list (pg_hid * pg_srec)) (selected : list pg_hid) (now : Z) : list pg_hid :=
+  filter (fun k => negb (pg_rec_finished (pg_find k body)) && negb (pg_rec_sleeping now (pg_find k body))) selected.
+
+(* comparison of a run with what was observed (for the differential) *)
+Definition pg_run_eqb (run : list pg_result * list (pg_hid * pg_srec)) (universe : list pg_hid)
+           (traces : list (list (pg_hid * Z))) (final : list (option pg_srec)) : bool :=
+  list_eqb pg_inv_eqb (map pg_trace (fst run)) traces &&
+  list_eqb (opt_eqb pg_srec_eqb) (map (fun k => pg_find k (snd run)) universe) final &&
+  forallb (fun kv => pg_mem (fst kv) universe) (snd run).
